@@ -66,3 +66,21 @@ Section Generic.
     - split; [exact Hle|]. split; [intro Hc; rewrite Eo in Hc; discriminate|]. destruct bs; exact I.
   Qed.
 End Generic.
+
+(* ---------------------------------------------------------------- scripts: unconditional *)
+From Akita Require Import C01.Proofs.
+
+(** for every script of the correspondence check (also panicking ones) and every boundary list the
+    driver's concatenated log is the single Run's log — the fuel hypothesis is discharged *)
+Lemma script_concat p cap init bs :
+  exists rs rl, run_script_segments p cap init bs = rs ++ [rl] /\
+    Forall (fun x => r_out x = Done) rs /\
+    flat_map (@r_log sev hst) (rs ++ [rl]) = r_log (run_script p cap init) /\
+    r_out rl = r_out (run_script p cap init) /\ r_hs rl = r_hs (run_script p cap init) /\
+    r_en rl = r_en (run_script p cap init).
+Proof.
+  pose proof (script_run_ends p cap init) as Hno.
+  unfold run_script_segments, run_script in *.
+  destruct (script_start cap init) as [[[hs en] xs] ok].
+  exact (run_segments_concat s_time s_sec (script_handler p) bs (script_fuel cap init) hs en Hno).
+Qed.
